@@ -160,19 +160,24 @@ class H2bSeam(H2Cbf):
                 ("f2", lambda: self.ret.append(self.r.gn_area_cbf_forwarding(bh, ch, gh, pay)))]
 
     def check(self, s):
+        # the seam has no duplicate detection of its own: a call either buffers the packet (True: exactly one later
+        # transmission unless a following call cancels it) or cancels the buffered copy (False: no transmission of it)
         bad = []
-        if len(self.ll.sent) > 1:
-            bad.append(dict(kind="cbf_transmitted_twice", count=len(self.ll.sent)))
-        # every send must come from a timer whose cancellation had not completed before its expiry step
-        for timer, started in s.timer_cancels:
-            if started is False and any(n == timer.ct.name for n, _f in self.ll.sent) and \
-                    sum(1 for t in s.threads if t.is_timer and t.name == timer.ct.name) == 1:
-                bad.append(dict(kind="sent_after_cancel"))
-        if sorted(self.ret) not in ([False, True], [True, True]):
+        buffered, cancelled = self.ret.count(True), self.ret.count(False)
+        if len(self.ret) != 2 or buffered < 1:
             bad.append(dict(kind="cbf_return_values", got=sorted(self.ret)))
-        if self.ret.count(True) == 2 and len(self.ll.sent) != 1 and not getattr(self.r, "_cbf_buffer", None):
-            # both buffered (timer of the first expired in between): exactly... each buffered copy fires once
-            pass
+        tx = len(self.ll.sent)
+        if tx > buffered:
+            bad.append(dict(kind="cbf_transmitted_more_than_buffered", sent=tx, buffered=buffered))
+        if cancelled and tx > buffered - cancelled:
+            bad.append(dict(kind="sent_after_cancel", sent=tx, buffered=buffered, cancelled=cancelled))
+        if not cancelled and tx != buffered and not any(t.is_timer and not t.finished for t in s.threads):
+            bad.append(dict(kind="cbf_buffered_copy_never_sent", sent=tx, buffered=buffered))
+        for timer, started in s.timer_cancels:
+            if started is False and timer.ct is not None and timer.ct.first_step_done:
+                bad.append(dict(kind="timer_ran_after_cancel"))
+        if getattr(self.r, "_cbf_buffer", None):
+            bad.append(dict(kind="cbf_buffer_leak", keys=len(self.r._cbf_buffer)))
         return bad
 
 
@@ -267,7 +272,44 @@ class H5Dpd(Base):
         return bad
 
 
-HARNESSES = {"H1": H1Sequence, "H2": H2Cbf, "H2b": H2bSeam, "H3": H3EgoPv, "H4": H4LocationService, "H5": H5Dpd}
+class H1Small(H1Sequence):
+    def actors(self):
+        return H1Sequence.actors(self)[:2]
+
+    def check(self, s):
+        sns = [p["ext"]["sn"] for p in self.frames() if "sn" in p.get("ext", {})]
+        return [dict(kind="duplicate_sequence_number", sns=sns)] if len(sns) != len(set(sns)) or len(sns) != 2 else []
+
+
+class H3Small(H3EgoPv):
+    def actors(self):
+        a = H3EgoPv.actors(self)
+        return [a[0], a[2], a[3]]
+
+
+class H4Small(H4LocationService):
+    def actors(self):
+        a = H4LocationService.actors(self)
+        return [a[0], a[2]]
+
+    def check(self, s):
+        return [b for b in H4LocationService.check(self, s) if b.get("request") != "two"]
+
+
+class H5Small(H5Dpd):
+    def actors(self):
+        return H5Dpd.actors(self)[:2]
+
+    def check(self, s):
+        bad = []
+        if len(self.inds) != 1:
+            bad.append(dict(kind="delivery_count", got=len(self.inds), expected=1))
+        if len(self.ll.sent) != 1:
+            bad.append(dict(kind="forward_count", got=len(self.ll.sent)))
+        return bad
+
+
+HARNESSES = {"H1s": H1Small, "H3s": H3Small, "H4s": H4Small, "H5s": H5Small, "H1": H1Sequence, "H2": H2Cbf, "H2b": H2bSeam, "H3": H3EgoPv, "H4": H4LocationService, "H5": H5Dpd}
 
 
 def make(name):
@@ -276,8 +318,8 @@ def make(name):
 
 def run(ctx):
     thorough = ctx.tier == "thorough"
-    plan = {"H1": 1, "H2": 1, "H2b": 2, "H3": 2, "H4": 1, "H5": 1} if not thorough else \
-           {"H1": 2, "H2": 2, "H2b": 3, "H3": 3, "H4": 1, "H5": 2}
+    plan = {"H1s": 1, "H2": 1, "H2b": 2, "H3s": 1, "H4s": 1, "H5s": 1} if not thorough else \
+           {"H1s": 2, "H1": 1, "H2": 2, "H2b": 3, "H3s": 2, "H3": 1, "H4s": 2, "H4": 1, "H5s": 2, "H5": 1}
     tot_s = tot_steps = 0
     outcomes = 0
     samples = []
